@@ -7,8 +7,8 @@ from props import xpath_common as X
 
 FIELDS = ["id", "k1", "f", "a", "text", "textId"]
 BIG = 9007199254740993      # 2**53 + 1: not representable as a float
-VALS = ["1", "2", "x", "B", "a b", 1, 2, 1.5, "xy", "10", BIG, BIG - 1, "m=f", "a~b", "m=f~x", "C:\\tmp", "a\tb", "it's", "C++", "a+b"]
-LITS = ["1", "2", "x", "B", "a b", "xy", "1.5", "zz", "10", "0", str(BIG), str(BIG - 1), "m=f", "a~b", "C:\\tmp", "a\tb", "it's", "C++", "a+b", "+"]
+VALS = ["1", "2", "x", "B", "a b", 1, 2, 1.5, "xy", "10", BIG, BIG - 1, "m=f", "a~b", "m=f~x", "C:\\tmp", "a\tb", "it's", "C++", "a+b", "x]", "eth[0]"]
+LITS = ["1", "2", "x", "B", "a b", "xy", "1.5", "zz", "10", "0", str(BIG), str(BIG - 1), "m=f", "a~b", "C:\\tmp", "a\tb", "it's", "C++", "a+b", "+", "x]", "eth[0]"]
 
 
 def gen_recs(rng, n=None):
@@ -74,6 +74,12 @@ class C06(Prop):
                 t, P, ppath = {"r": recs, "z": 1}, rng.choice(["r", "/r", "//r"]), ["r"]
             elif depth == 1:
                 t, P, ppath = {"a": {"r": recs, "k1": "x"}}, rng.choice(["a/r", "/a/r"]), ["a", "r"]
+            elif depth == 2 and rng.random() < 0.4:
+                # a from-the-end index that addresses element 0: the only element of a list, or the first of two
+                if rng.random() < 0.5:
+                    t, P, ppath = {"a": [{"r": recs}]}, rng.choice(["a[last()]/r", "a[-1]/r", "/a[0]/r", "a/[-1]/r"]), ["a", 0, "r"]
+                else:
+                    t, P, ppath = {"a": [{"r": recs}, {"x": 1}]}, rng.choice(["a[-2]/r", "a[last()-1]/r", "/a[0]/r"]), ["a", 0, "r"]
             elif depth == 2:
                 t, P, ppath = {"a": [{"x": 1}, {"r": recs}]}, rng.choice(["a[1]/r", "/a[last()]/r", "a[-1]/r"]), ["a", 1, "r"]
             elif depth == 3:
